@@ -232,7 +232,11 @@ func (c *Crypto) Stream(dst, src []byte, decrypt bool) {
 		salsa20.XORKeyStream(dst[8:], src[8:], src[:8], c.salsa)
 	case c.xor != nil:
 		for i := range src {
-			dst[i] = src[i] ^ c.xor[i]
+			if i < len(c.xor) {
+				dst[i] = src[i] ^ c.xor[i]
+			} else {
+				dst[i] = src[i] // the table covers one packet buffer; nothing longer is ever a valid packet
+			}
 		}
 	default:
 		copy(dst, src)
